@@ -4,10 +4,7 @@ CONSTANTS
   MaxWrites = 2
   MaxReads = 0
   Perpetual = TRUE
-  MutNoBarrier = FALSE
-  MutOnlyOldSlot = FALSE
-  MutOnlyNewSlot = FALSE
-  MutLoadFirst = FALSE
+  Muts <- MutsNone
 SPECIFICATION FairSpec
 INVARIANTS Safe
 PROPERTIES StoreTerminates
